@@ -200,6 +200,19 @@ func (w *wk) graphEnv() *graphEnv {
 	}
 	sort.Strings(ge.opNames)
 	ge.opNames = append(ge.opNames, goOps...)
+	// the same operations on the graph after it has been frozen (a cycle is made
+	// while the values are mutable; most values a program meets are frozen)
+	for _, n := range append([]string(nil), ge.opNames...) {
+		switch n {
+		case "op_call", "op_add", "op_dir", "op_list", "op_dictlookup", "go:Freeze", "go:modfreeze":
+			continue
+		}
+		if strings.HasPrefix(n, "go:") {
+			ge.opNames = append(ge.opNames, "frozen:"+n)
+		} else {
+			ge.opNames = append(ge.opNames, "op_frozen:"+strings.TrimPrefix(n, "op_"))
+		}
+	}
 	return ge
 }
 
@@ -314,7 +327,13 @@ func (w *wk) runGraphOp(ge *graphEnv, cs *Case, build starlark.Value) {
 		if err != nil {
 			fw.Fatal("graph build failed: %v\n%s", err, graphSource(cs.Kinds, cs.Edges))
 		}
-		switch cs.Op {
+		op := cs.Op
+		if strings.HasPrefix(op, "frozen:") {
+			op = strings.TrimPrefix(op, "frozen:")
+			r.Freeze()
+			q.Freeze()
+		}
+		switch op {
 		case "go:Freeze":
 			r.Freeze()
 		case "go:String":
@@ -322,7 +341,7 @@ func (w *wk) runGraphOp(ge *graphEnv, cs *Case, build starlark.Value) {
 		case "go:Hash":
 			_, err = r.Hash()
 		default:
-			fn := ge.ops["op_"+cs.Op]
+			fn := ge.ops["op_"+op]
 			if fn == nil {
 				fw.Fatal("unknown graph op %s", cs.Op)
 			}
